@@ -61,6 +61,7 @@ def run(tier, seed):
         twin_fin = None
         if not scn["U"]:
             H.derive_presentation(scn)      # the supervised twin is handed the very same arrays
+            H.derive_label_offset(scn)      # ... and the very same class identifiers
             sup = copy.deepcopy(scn)
             sup["kind"] = "sup"
             sup["Q"] = []
